@@ -102,7 +102,23 @@ def make_context(noverloads, conv='camel'):
         f = specs.parameter('y', yaqltypes.PythonType(tb, False, [lambda t: type(t) is not bool] if tb is int else None))(g)
         f = specs.parameter('x', yaqltypes.PythonType(ta, False, [lambda t: type(t) is not bool] if ta is int else None))(f)
         ctx.register_function(f, name='g')
+    ctx['host'] = make_host()
     return ctx
+
+
+def make_host():
+    """a yaqlized host object: its method calls evaluate their arguments like any other call"""
+    from yaql import yaqlization
+
+    class Host(object):
+        def add(self, a, b=0, c=0):
+            return a + b + c
+
+        def pick(self, a, b):
+            return b
+    h = Host()
+    yaqlization.yaqlize(h)
+    return h
 
 
 class Bad(Exception):
@@ -181,6 +197,11 @@ class Gen:
             ('coalesce-int', lambda d: self.coalesce(d, 'I')),
             ('indexOf', lambda d: e('{}.indexOf({})', 'LI', d)),
             ('assert', lambda d: self.assert_(d, 'I')),
+            # method calls of a yaqlized host object: positional arguments left to right, then the keyword ones
+            ('host-method', lambda d: e('$host.add({}, {})', 'II', d)),
+            ('host-method-kw', lambda d: e('$host.add({}, b => {})', 'II', d)),
+            ('host-method-kw2', lambda d: e('$host.add({}, c => {}, b => {})', 'III', d)),
+            ('host-method-kw3', lambda d: e('$host.pick({}, b => {})', 'II', d)),
         ]
 
     def indexer(self, d):
